@@ -61,6 +61,9 @@ pub struct Case {
     /// full device): it receives nothing, and nobody else may receive what was meant for it
     #[serde(default)]
     pub faulty: Option<usize>,
+    /// WriteMode::SupportCapture (duplicates are written with print!/eprint!) instead of Direct
+    #[serde(default)]
+    pub support_capture: bool,
 }
 
 pub struct P;
@@ -130,6 +133,9 @@ fn execute(case: &Case, sc_dir: &Path, with_dup: bool) -> Result<Routed, String>
         .format(id_format)
         .error_channel(ErrorChannel::File(errfile.clone()))
         .panic_if_error_channel_is_broken(false);
+    if case.support_capture {
+        l = l.write_mode(flexi_logger::WriteMode::SupportCapture);
+    }
     if with_dup {
         if let Some((e, o)) = case.dup {
             l = l.duplicate_to_stderr(dup(e)).duplicate_to_stdout(dup(o));
@@ -314,9 +320,9 @@ impl Property for P {
                 } else {
                     prop::option::weighted(0.3, proptest::sample::select(files)).boxed()
                 };
-                (Just(spec), Just(writers), steps_strat(names, dup.is_some()), Just(dup), faulty)
+                (Just(spec), Just(writers), steps_strat(names, dup.is_some()), Just(dup), faulty, prop::bool::weighted(0.3))
             })
-            .prop_map(|(spec, writers, steps, dup, faulty)| Case { spec, writers, steps, dup, faulty })
+            .prop_map(|(spec, writers, steps, dup, faulty, support_capture)| Case { spec, writers, steps, dup, faulty, support_capture })
             .boxed()
     }
 
@@ -424,6 +430,9 @@ impl Property for P {
                 WKind::File => "writer:file",
                 _ => "writer:syslog",
             });
+        }
+        if case.support_capture {
+            out.class("write-mode:SupportCapture");
         }
         if case.dup.is_some() {
             out.class("child-with-duplication");
